@@ -1087,10 +1087,10 @@ def ngram_kernels(F, classes=SKETCH_CLASSES):
     return res
 
 
-def rule_window(ctx):
+def rule_window(ctx, classes=SKETCH_CLASSES):
     F = facts_of(ctx)
     from .rules_arith import walk_kernel
-    for cls, meth, k in ngram_kernels(F):
+    for cls, meth, k in ngram_kernels(F, classes):
         w = walk_kernel(F, k)
         keyp = [p for p, t in k.ptypes.items() if t.kind == "bytes"][0]
         calls = [e for e in w.events if e.kind == "call" and e.callee is not None and e.callee.is_kernel]
